@@ -59,6 +59,14 @@ OPS = [
     ("drop_stmt", r"^(\s+)([a-z_][\w.]*\([^;]*\);)\s*$", r"\1"),
     ("and_then_skip", r"\.filter\(", ".skip_while("),
     ("ok_or_swap", r"\bunwrap_or\(true\)", "unwrap_or(false)"),
+    # second batch
+    ("cond_true", r"\bif (?!let\b)(.+) \{$", "if true {"), ("cond_false", r"\bif (?!let\b)(.+) \{$", "if false {"),
+    ("prim_swap_u", r"primitive::u(8|16|32|64)\b", lambda m: "primitive::u" + {"8": "16", "16": "32", "32": "64", "64": "128"}[m.group(1)]),
+    ("prim_swap_i", r"primitive::i(8|16|32|64)\b", lambda m: "primitive::i" + {"8": "16", "16": "32", "32": "64", "64": "128"}[m.group(1)]),
+    ("drop_rev", r"\.rev\(\)", ""), ("skip_first", r"\.iter\(\)", ".iter().skip(1)"),
+    ("plus_minus", r" \+ (?=[a-z(])", " - "), ("pluseq_minuseq", r" \+= ", " -= "),
+    ("drop_sort", r"^(\s+)([\w.]+\.sort[\w]*\([^;]*\);)\s*$", r"\1"),
+    ("drop_question_some", r"\.then\(\|\| ", ".then_some((|| "),
 ]
 
 def candidate_lines(path):
@@ -90,7 +98,7 @@ def mutants_of(path):
                 # skip matches inside string literals (crude: odd number of quotes before)
                 if code[:m.start()].count('"') % 2 == 1:
                     continue
-                new = code[:m.start()] + m.expand(rep) + code[m.end():] + l[len(code):]
+                new = code[:m.start()] + (rep(m) if callable(rep) else m.expand(rep)) + code[m.end():] + l[len(code):]
                 if new != l:
                     res.append({"file": path, "line": i + 1, "op": name, "k": k, "old": l, "new": new})
     return res
@@ -152,6 +160,7 @@ def main():
     ap.add_argument("--mode", default="both", choices=["both", "tests", "checks"],
                     help="both: tests, then checks for survivors (results.jsonl). tests / checks: only that half, for two labs running in parallel (results_tests.jsonl / results_checks.jsonl); merge with --report")
     ap.add_argument("--report", action="store_true")
+    ap.add_argument("--only-survivors", action="store_true", help="checks mode: only mutants that results_tests.jsonl records as survives_tests")
     a = ap.parse_args()
     if a.report:
         return report()
@@ -174,7 +183,15 @@ def main():
                 d = json.loads(l); done.add((d["file"], d["line"], d["op"], d["k"]))
             except Exception:
                 pass
+    if a.only_survivors:
+        surv = set()
+        for l in open(OUT_TESTS):
+            d = json.loads(l)
+            if d["status"] == "survives_tests":
+                surv.add((d["file"], d["line"], d["op"], d["k"]))
+        pool = [m for m in pool if (m["file"], m["line"], m["op"], m["k"]) in surv]
     print("mutant pool: %d, already done: %d" % (len(pool), len(done)))
+    open(os.path.join(HERE, "mutation", "campaign-%s.pid" % a.mode), "w").write(str(os.getpid()))
     n = 0
     for m in pool:
         if n >= a.n:
